@@ -1348,12 +1348,16 @@ class Converter:
 
         for pv in loop_state_vars:
             onnx_var = self._py_var_to_onnx_var(pv, self._source_of(loop_stmt))
-            if onnx_var.name not in self._current_fn.assigned_names:
+            if onnx_var.name not in self._current_fn.assigned_names or any(
+                onnx_var is output for output in self._current_fn.outputs
+            ):
                 # When converting the loop-body into a graph, we need to handle
                 # identity assignments of the form "x = y" inside the loop body
                 # specially if y represents a value computed outside the loop body.
                 # In this case, we create a copy of y, treating the statement as
                 # shorthand for "x = op.Identity(y)".
+                # The same holds if y is itself a loop-carried variable: the outputs
+                # of a graph must be distinct values.
                 onnx_var = self._emit_copy(onnx_var, pv)
             self._current_fn.outputs.append(onnx_var)
         body = self._exit_scope()
@@ -1393,12 +1397,16 @@ class Converter:
             if python_var in self._current_scope():
                 python_var_value = self._current_scope()[python_var]
                 output = self._to_onnx_var(python_var_value, python_var)
-                if output.name not in self._current_fn.assigned_names:
+                if output.name not in self._current_fn.assigned_names or any(
+                    output is other for other in self._current_fn.outputs
+                ):
                     # TODO (Rama): Unclear how this can happen. If python_var is in current_scope,
                     # then it should have been assigned a value in the current graph.
                     #
                     # To return an outer-scope variable, an ONNX Graph has to
                     # use an explicit copy via Identity.
+                    # The same holds for a second variable bound to the same value ("z = y"):
+                    # the outputs of a graph must be distinct values.
                     output = self._emit_copy(output, python_var)
                 self._current_fn.outputs.append(output)
             else:
